@@ -376,6 +376,10 @@ var c16enumDefs = []enumDefn{
 	{"Enum8('b' = 1, 'c' = 3)", map[string]int64{"b": 1, "c": 3}, 1},
 	{"Enum16('a' = 300, 'z' = -5)", map[string]int64{"a": 300, "z": -5}, 2},
 	{"Enum8('q' = 2)", map[string]int64{"q": 2}, 1},
+	// the same members under the other base (ALTER ... MODIFY COLUMN widens an enum this way)
+	{"Enum16('a' = 1, 'b' = 2)", map[string]int64{"a": 1, "b": 2}, 2},
+	{"Enum16('q' = 2)", map[string]int64{"q": 2}, 2},
+	{"Enum8('a' = 44, 'z' = -5)", map[string]int64{"a": 44, "z": -5}, 1},
 }
 
 // A ColEnum that is inferred again with another definition must behave as a
